@@ -272,14 +272,13 @@ fn c10_k_probe() {
             assert!(n <= 3, "C10: probe makes more than three accesses");
         }
     }
-    let mut i = 0;
-    while i < 3 {
-        if i < n {
-            assert!(!tr(i).write && tr(i).width == 4, "C10: probe made a write or a non-32-bit access");
-        }
-        i += 1;
+    let i: usize = kani::any();
+    if i < n {
+        assert!(!tr(i).write && tr(i).width == 4, "C10: probe made a write or a non-32-bit access");
     }
-    assert!(mem == before, "C10: probing changed the register block");
+    let k: usize = kani::any();
+    kani::assume(k < 64);
+    assert!(mem[k] == before[k], "C10: probing changed the register block");
 }
 
 /// C10 K-complete: drop resets the device: exactly one access, `W(0x070, 0)`.
@@ -396,7 +395,11 @@ fn c10_k_misc() {
 fn c10_k_queue_set_modern() {
     let mut mem = any_mem(MODERN_VERSION);
     let mut t = transport(&mut mem);
-    let (q, n, d, a, u): (u16, u32, u64, u64, u64) = kani::any();
+    let q: u16 = kani::any();
+    let n: u32 = kani::any();
+    let d: u64 = kani::any();
+    let a: u64 = kani::any();
+    let u: u64 = kani::any();
     t.queue_set(q, n, d, a, u);
     assert!(tr_len() == 9, "C10: modern queue_set access count");
     assert!(tr(0) == wr(0x030, q as u32), "C10: modern queue_set must select the queue first");
@@ -417,7 +420,11 @@ fn c10_k_queue_set_modern() {
 fn c10_k_queue_set_legacy() {
     let mut mem = any_mem(LEGACY_VERSION);
     let mut t = transport(&mut mem);
-    let (q, n, d, a, u): (u16, u32, u64, u64, u64) = kani::any();
+    let q: u16 = kani::any();
+    let n: u32 = kani::any();
+    let d: u64 = kani::any();
+    let a: u64 = kani::any();
+    let u: u64 = kani::any();
     // the subtraction `driver_area - descriptors` panics (overflow check) when driver_area < descriptors:
     // a refusal before any access; restrict to the returning executions
     kani::assume(a >= d && u >= d);
@@ -441,7 +448,11 @@ fn c10_k_queue_set_legacy() {
 fn c10_k_queue_set_legacy_refuses() {
     let mut mem = any_mem(LEGACY_VERSION);
     let mut t = transport(&mut mem);
-    let (q, n, d, a, u): (u16, u32, u64, u64, u64) = kani::any();
+    let q: u16 = kani::any();
+    let n: u32 = kani::any();
+    let d: u64 = kani::any();
+    let a: u64 = kani::any();
+    let u: u64 = kani::any();
     let x = 16 * n as u64 + 2 * (n as u64 + 3);
     let good = a >= d && u >= d && a - d == 16 * n as u64 && u - d == ((x + 4096) & !4095) && d / 4096 <= u32::MAX as u64 && d % 4096 == 0;
     kani::assume(!good);
@@ -502,7 +513,9 @@ fn c10_k_some_delegates() {
     let x64: u64 = kani::any();
     let op: u8 = kani::any();
     kani::assume(op < 13);
-    let (d, a, u): (u64, u64, u64) = kani::any();
+    let d: u64 = kani::any();
+    let a: u64 = kani::any();
+    let u: u64 = kani::any();
     if version == 1 && op == 9 {
         // legacy queue_set: only the returning executions (see c10_k_queue_set_legacy)
         kani::assume(a >= d && u >= d && a - d == 16 * x32 as u64);
@@ -549,12 +562,11 @@ fn c10_k_some_delegates() {
     core::mem::forget(t);
     assert!(ra == rb, "C10: SomeTransport returns a different value than the wrapped MMIO transport");
     assert!(n_a == n_b, "C10: SomeTransport makes a different number of register accesses than the wrapped MMIO transport");
-    let mut i = 0;
-    while i < 10 {
-        if i < n_a {
-            assert!(tr_a[i] == tr_b[i], "C10: SomeTransport makes different register accesses than the wrapped MMIO transport");
-        }
-        i += 1;
+    let i: usize = kani::any();
+    if i < n_a && i < TR_MAX {
+        assert!(tr_a[i] == tr_b[i], "C10: SomeTransport makes different register accesses than the wrapped MMIO transport");
     }
-    assert!(mem_a == mem_b, "C10: SomeTransport leaves the register block in a different state");
+    let k: usize = kani::any();
+    kani::assume(k < 64);
+    assert!(mem_a[k] == mem_b[k], "C10: SomeTransport leaves the register block in a different state");
 }
